@@ -11,6 +11,9 @@
 EXTENDS Integers, Sequences, FiniteSets, TLC
 CONSTANTS PoolSize,       \* 0 = unbounded
           NReq, Reuse,    \* Reuse: idle_timeout is set (clients poll again after a delivery)
+          Http,           \* the clients are HttpRelayClients (slimta/relay/http.py): the connection is made for a request and is not
+                          \* the client's lifetime - a failed request closes it and the client polls again; an idle timeout closes
+                          \* it and the client keeps polling (it never ends while idle_timeout is set); nothing is ever sent back
           KF_NoRespawn,   \* deviation: _remove_client does not start a client for pending requests
           MaxClients,     \* bound on client greenlets ever started (used as a state constraint in the safety configurations)
           MaxRequeue      \* how often the downstream may time a connection out under a waiting request (Requeue); a downstream
@@ -19,12 +22,12 @@ CONSTANTS PoolSize,       \* 0 = unbounded
 VARIABLES clients, queue, result, called, nextc, conns, maxconns, rq
 vars == <<clients, queue, result, called, nextc, conns, maxconns, rq>>
 Reqs == 1..NReq
-\* clients: function id -> [st, req]
+\* clients: function id -> [st, req, conn]   (conn: the client holds a connection)
 Live == {c \in DOMAIN clients : clients[c].st \in {"new", "idle", "busy", "closing"}}
 InPool == {c \in DOMAIN clients : clients[c].st # "gone"}
 Init == clients = <<>> /\ queue = <<>> /\ result = [r \in Reqs |-> 0] /\ called = {} /\ nextc = 1 /\ conns = 0 /\ maxconns = 0 /\ rq = 0
 
-AddClient(cs) == cs \o <<[st |-> "new", req |-> 0]>>
+AddClient(cs) == cs \o <<[st |-> "new", req |-> 0, conn |-> FALSE]>>
 Bounded == Len(clients) <= MaxClients
 \* attempt(): _check_idle + append, no yield in between
 Attempt(r) ==
@@ -38,9 +41,9 @@ Attempt(r) ==
 Poll(c) ==
   /\ clients[c].st \in {"new", "idle"}
   /\ IF queue # <<>>
-     THEN /\ clients' = [clients EXCEPT ![c] = [st |-> "busy", req |-> Head(queue)]]
+     THEN /\ clients' = [clients EXCEPT ![c] = [st |-> "busy", req |-> Head(queue), conn |-> TRUE]]
           /\ queue' = Tail(queue)
-          /\ conns' = IF clients[c].st = "new" THEN conns + 1 ELSE conns       \* first request: connect
+          /\ conns' = IF ~clients[c].conn THEN conns + 1 ELSE conns       \* no connection yet (or no longer): connect
           /\ maxconns' = IF conns' > maxconns THEN conns' ELSE maxconns
      ELSE /\ clients[c].st = "new"
           /\ clients' = [clients EXCEPT ![c].st = "idle"] /\ UNCHANGED <<queue, conns, maxconns>>
@@ -49,25 +52,29 @@ Poll(c) ==
 Deliver(c) ==
   /\ clients[c].st = "busy"
   /\ result' = [result EXCEPT ![clients[c].req] = clients[c].req]
-  /\ \/ /\ Reuse /\ clients' = [clients EXCEPT ![c] = [st |-> "idle", req |-> 0]] /\ UNCHANGED conns
-     \/ /\ clients' = [clients EXCEPT ![c] = [st |-> "closing", req |-> 0]] /\ UNCHANGED conns      \* no reuse, or the connection failed
+  /\ \/ /\ Reuse /\ clients' = [clients EXCEPT ![c].st = "idle", ![c].req = 0] /\ UNCHANGED conns
+     \/ /\ ~(Http /\ Reuse)
+        /\ clients' = [clients EXCEPT ![c].st = "closing", ![c].req = 0] /\ UNCHANGED conns      \* no reuse, or the connection failed
+     \/ /\ Http /\ Reuse                                   \* the request failed: the connection is closed, the client polls again
+        /\ clients' = [clients EXCEPT ![c] = [st |-> "idle", req |-> 0, conn |-> FALSE]] /\ conns' = conns - 1
   /\ UNCHANGED <<queue, called, nextc, maxconns, rq>>
 \* the client's greenlet ends: connection closed
 Exit(c) ==
   /\ clients[c].st = "closing"
-  /\ clients' = [clients EXCEPT ![c].st = "dead"]
-  /\ conns' = IF conns > 0 THEN conns - 1 ELSE 0
+  /\ clients' = [clients EXCEPT ![c].st = "dead", ![c].conn = FALSE]
+  /\ conns' = IF clients[c].conn THEN conns - 1 ELSE conns
   /\ UNCHANGED <<queue, result, called, nextc, maxconns, rq>>
 \* server-initiated time-out noticed before a delivery: the request goes back to the front, the client ends
 Requeue(c) ==
-  /\ clients[c].st = "busy" /\ Reuse /\ rq < MaxRequeue /\ rq' = rq + 1
+  /\ clients[c].st = "busy" /\ Reuse /\ ~Http /\ rq < MaxRequeue /\ rq' = rq + 1
   /\ queue' = <<clients[c].req>> \o queue
-  /\ clients' = [clients EXCEPT ![c] = [st |-> "closing", req |-> 0]] /\ UNCHANGED conns
+  /\ clients' = [clients EXCEPT ![c].st = "closing", ![c].req = 0] /\ UNCHANGED conns
   /\ UNCHANGED <<result, called, nextc, maxconns>>
 IdleExpire(c) ==
   /\ clients[c].st = "idle" /\ Reuse
-  /\ clients' = [clients EXCEPT ![c].st = "closing"]
-  /\ UNCHANGED <<queue, result, called, nextc, maxconns, rq, conns>>
+  /\ IF Http THEN /\ clients[c].conn /\ clients' = [clients EXCEPT ![c].conn = FALSE] /\ conns' = conns - 1
+             ELSE /\ clients' = [clients EXCEPT ![c].st = "closing"] /\ UNCHANGED conns
+  /\ UNCHANGED <<queue, result, called, nextc, maxconns, rq>>
 \* link callback: _remove_client
 Unlink(c) ==
   /\ clients[c].st = "dead"
@@ -82,6 +89,8 @@ FairSpec == Spec /\ WF_vars(\E c \in DOMAIN clients : Poll(c) \/ Deliver(c) \/ I
                  /\ \A r \in Reqs : WF_vars(Attempt(r))
 
 C19_Bound == PoolSize # 0 => Cardinality(InPool) <= PoolSize /\ conns <= PoolSize
+\* (the counter is the number of clients that hold a connection)
+ConnsCounted == conns = Cardinality({c \in DOMAIN clients : clients[c].conn})
 C19_OwnResult == \A r \in Reqs : result[r] \in {0, r}
 \* nothing is left waiting while no client exists that could serve it
 C19_NoStranding == (queue # <<>>) => \E c \in DOMAIN clients : clients[c].st \in {"new", "idle", "busy", "closing", "dead"}
